@@ -103,16 +103,24 @@ def addHierarchy (lim : Option Nat) (g : PGraph Str) (parents : List Str) (child
 def addAllModules (lim : Option Nat) (g : PGraph Str) (mods : List Str) : PGraph Str :=
   mods.foldl (fun g m => addHierarchy lim (createNode lim g m) (parentModules m) m) g
 
+/-- `_known_modules` (repair of the level-limit defect): all modules and all their parents, UNFLATTENED -/
+def knownModules (mods : List Str) : List Str := mods ++ mods.flatMap parentModules
+
+/-- `not _is_import_between_known_modules(importer, importee)`: with a level limit, an import whose
+    unflattened importer or importee is not a known module does not produce an import edge -/
+def skipImportEdge (lim : Option Nat) (known : List Str) (i : ImportRec) : Bool :=
+  lim.isSome && !(known.contains i.importer && known.contains i.importee)
+
 /-- the body of the `for imp in self._imports` loop -/
-def addImport (lim : Option Nat) (g : PGraph Str) (i : ImportRec) : PGraph Str :=
-  let g := createEdge lim g i.importer i.importee false
+def addImport (lim : Option Nat) (known : List Str) (g : PGraph Str) (i : ImportRec) : PGraph Str :=
+  let g := if skipImportEdge lim known i then g else createEdge lim g i.importer i.importee false
   let g := addHierarchy lim g (parentModules i.importer) i.importer
   (consecutive (i.importeeParents ++ [i.importee])).foldl
     (fun g pc => createEdge lim g pc.1 pc.2 true) g
 
 /-- `NetworkxGraph(all_modules, imports, level_limit)` -/
 def buildGraph (mods : List Str) (imports : List ImportRec) (lim : Option Nat) : PGraph Str :=
-  imports.foldl (addImport lim) (addAllModules lim PGraph.empty mods)
+  imports.foldl (addImport lim (knownModules mods)) (addAllModules lim PGraph.empty mods)
 
 /-- an `AbsoluteImport(importer, importee)` -/
 def absImport (importer importee : Str) : ImportRec :=
